@@ -221,3 +221,67 @@ pub fn shape(cfg: &LCfg) -> Shape {
         max_depth: names.iter().map(|n| n.len()).max().unwrap_or(0),
     }
 }
+
+
+/// Pairs of distinct name components that a sloppy key for the logger tree would conflate: published collisions of
+/// common string hashes (FNV-1a 64/32, FNV-1 32, Java's String.hashCode, djb2, djb2a, CRC-32 - each verified when the
+/// list was written), anagrams (order-insensitive sums), and names that are equal after case folding, Unicode
+/// normalisation, trimming or truncation at a NUL. Generated search cannot find a 64-bit hash collision; a fixed list
+/// can at least cover the hashes people actually reach for.
+pub fn lookalike_pairs() -> Vec<(&'static str, &'static str)> {
+    vec![
+        ("8yn0iYCKYHlIj4-BwPqk", "GReLUrM4wMqfg9yzV3KQ"),
+        ("gMPflVXtwGDXbIhP73TX", "LtHf1prlU1bCeYZEdqWf"),
+        ("costarring", "liquid"),
+        ("declinate", "macallums"),
+        ("altarage", "zinke"),
+        ("altarages", "zinkes"),
+        ("creamwove", "quists"),
+        ("Aa", "BB"),
+        ("plumless", "buckeroo"),
+        ("hetairas", "mentioner"),
+        ("heliotropes", "neurospora"),
+        ("depravement", "serafins"),
+        ("stylist", "subgenera"),
+        ("joyful", "synaphea"),
+        ("redescribed", "urites"),
+        ("dram", "vivency"),
+        ("playwright", "snush"),
+        ("ab", "ba"),
+        ("listen", "silent"),
+        ("A", "a"),
+        ("Module", "module"),
+        ("\u{e9}", "e\u{301}"),
+        ("a", " a"),
+        ("a", "a "),
+        ("a", "a\u{0}"),
+        ("a\u{0}b", "a\u{0}c"),
+        ("\u{fb01}", "fi"),
+        ("\u{df}", "ss"),
+        ("\u{212a}", "K"),
+        ("a", "\u{430}"),
+        ("x1", "x01"),
+        ("0", "00"),
+    ]
+}
+
+/// Configuration in which the two components name sibling loggers (at the top and below `p`) with different levels,
+/// appenders and additivity, plus the probe targets that tell them apart.
+pub fn lookalike_cfg(x: &str, y: &str, flip: bool) -> (LCfg, Vec<String>) {
+    let (x, y) = if flip { (y, x) } else { (x, y) };
+    let lg = |name: String, level: u8, additive: bool, app: &str| LLogger { name, level, additive, appenders: vec![app.to_string()] };
+    let cfg = LCfg {
+        appenders: APPENDERS[..4].iter().map(|s| s.to_string()).collect(),
+        root_level: 2,
+        root_appenders: vec!["A3".to_string()],
+        loggers: vec![
+            lg(x.to_string(), 5, false, "A0"),
+            lg(y.to_string(), 1, true, "A1"),
+            lg(format!("p::{}", x), 1, true, "A2"),
+            lg(format!("p::{}", y), 4, false, "A0"),
+            lg(format!("{}::c", y), 3, true, "A2"),
+        ],
+    };
+    let targets = vec![x.to_string(), y.to_string(), format!("{}::c", x), format!("{}::c", y), format!("p::{}", x), format!("p::{}", y), format!("p::{}::d", y), "p".to_string()];
+    (cfg, targets)
+}
